@@ -17,7 +17,7 @@ from ..core import outcome
 
 RULE = ("one case = (program of array operations from a small ragged list = TLC state of MC_C07, encoding) replayed on real encoded arrays; "
         "non-trivial = the program has a selection or assignment acting on the result of an earlier selection/copy; distinct by (program, encoding)")
-ALL_OPS = ["rows", "cols", "concat", "copy", "row", "col", "eq", "ravel", "setrow", "setmask"]
+ALL_OPS = ["rows", "cols", "concat", "copy", "row", "col", "eq", "streq", "decode", "ravel", "setrow", "setmask"]
 
 
 def _encodings():
@@ -89,6 +89,11 @@ def check_vector(v):
                     return t[:, 0 if op["c"] == 1 else -1].to_string()
                 if name == "eq":
                     return [[bool(x) for x in row] for row in (t == letters[op["x"]]).tolist()]
+                if name == "streq":
+                    return [bool(x) for x in bnp.str_equal(t, txt(op["s"])).tolist()]
+                if name == "decode":
+                    from bionumpy.string_array import string_array
+                    return [[str(x) for x in t.encoding.decode(t).tolist()], [str(x) for x in string_array(t).tolist()]]
                 if name == "ravel":
                     return t.ravel().to_string()
                 if name == "setrow":
@@ -120,6 +125,15 @@ def check_vector(v):
             if last[1] != want:
                 bad.append({"what": "%s returns something else than the list of strings gives" % prog[-1]["op"], "tags": dict(tags, kind="value"),
                             "vector": v, "case": case, "expected": want, "observed": last[1]})
+        elif obs["kind"] == "flags":
+            if last[1] != obs["val"]:
+                bad.append({"what": "str_equal differs from comparing the rows as strings", "tags": dict(tags, kind="value"), "vector": v, "case": case,
+                            "expected": obs["val"], "observed": last[1]})
+        elif obs["kind"] == "rows":
+            want = [txt(r) for r in obs["val"]]
+            if last[1] != [want, want]:
+                bad.append({"what": "decode / string_array of the array are not its rows", "tags": dict(tags, kind="value"), "vector": v, "case": case,
+                            "expected": [want, want], "observed": last[1]})
         elif obs["kind"] == "bools":
             if last[1] != obs["val"]:
                 bad.append({"what": "comparison with a character differs", "tags": dict(tags, kind="value"), "vector": v, "case": case,
